@@ -823,3 +823,24 @@ def hetero_sort_case(draw):
     keyfn = _sf(draw, HET_KEYS_NUM if pool == 'num' else HET_KEYS_STR if pool == 'str' else ['type-rank'])
     return {'v': '31', 'items': items, 'keyfn': keyfn, 'fn': _sf(draw, ['sort', 'sort', 'array:sort']),
             'via': _sf(draw, ['inline', 'let'])}
+
+
+# --------------------------------------------------------------------------
+# sort with a parser-configuration axis: default collation codepoint vs html-ascii-case-insensitive
+# --------------------------------------------------------------------------
+COLL_STRS = ['b', 'A', 'a', 'B', 'ab', 'AB', 'Ab', 'aB', '_', 'Z', 'z', '', 'a_', 'A0']
+COLL_ARGS = ['absent', 'empty', 'empty', 'empty', 'codepoint', 'html-ascii']
+COLL_FORMS = ['direct', 'direct', 'ref', 'static-partial', 'dyn-partial', 'let-key']
+COLL_KEYS = ['none', 'identity', 'identity', 'dup', 'len-then-string', 'string-then-len', 'typed-identity']
+
+
+@st.composite
+def collation_sort_case(draw):
+    n = 2 + draw(_upto(7))
+    items = [_sf(draw, COLL_STRS) for _ in range(n)]
+    if draw(_upto(3)):
+        items[draw(_upto(len(items))):0] = _sf(draw, [['b', 'A', 'a', 'B'], ['B', 'a'], ['Z', '_', 'a'], ['ab', 'AB', 'Ab']])
+    coll = _sf(draw, COLL_ARGS)
+    key = 'none' if coll == 'absent' else _sf(draw, COLL_KEYS)
+    return {'v': '31', 'default': _sf(draw, ['html-ascii', 'html-ascii', 'codepoint']), 'items': items, 'coll': coll,
+            'key': key, 'fn': _sf(draw, ['sort', 'sort', 'array:sort']), 'form': _sf(draw, COLL_FORMS)}
